@@ -318,7 +318,7 @@ class Query:
         if results is None:
             self.status = 'error'; self.detail = (e or '') + ' ' + err[-400:]; return self
         self.n_props = 0; self.failed = []
-        unwind_fail = []; nobody = re.findall(r'no body for function (\S+)', out)
+        unwind_fail = []; unknown = []; nobody = re.findall(r'no body for function (\S+)', out)
         for r in results:
             d = r.get('description', ''); st = r.get('status')
             if d == 'witness':
@@ -329,6 +329,10 @@ class Query:
             self.n_props += 1
             if st == 'SUCCESS':
                 self.n_ok += 1
+            elif st != 'FAILURE':
+                # CBMC reports UNKNOWN for properties it did not decide (e.g. the sibling sub-checks of a dereference whose
+                # bounds check already failed); they are neither discharged nor counterexamples
+                unknown.append(r.get('property'))
             elif d.startswith('unwinding assertion') or 'recursion unwinding' in d:
                 unwind_fail.append(r.get('property'))
             else:
@@ -338,6 +342,8 @@ class Query:
             self.status = 'error'; self.detail = 'undefined external(s): ' + ','.join(sorted(set(nobody))); return self
         if self.failed:
             self.status = 'failed'
+        elif unknown:
+            self.status = 'error'; self.detail = '%d properties left UNKNOWN by cbmc without any FAILURE: %s' % (len(unknown), unknown[:3])
         elif unwind_fail:
             self.status = 'unwind'; self.detail = 'unwinding assertion failed (bound %d too small): %s' % (self.unwind, unwind_fail[:3])
         elif not self.witness_ok:
